@@ -293,6 +293,12 @@ impl ArrayImpl {
             return Err(ConvertError::NoUnaryOp("case".into(), self.type_string()));
         };
         Ok(match (true_array, false_array) {
+            (A::Bool(a), A::Bool(b)) => {
+                A::new_bool(clear_null(select_op(s.as_ref(), a.as_ref(), b.as_ref())))
+            }
+            (A::String(a), A::String(b)) => {
+                A::new_string(select_op(s.as_ref(), a.as_ref(), b.as_ref()))
+            }
             (A::Int16(a), A::Int16(b)) => {
                 A::new_int16(select_op(s.as_ref(), a.as_ref(), b.as_ref()))
             }
